@@ -430,7 +430,8 @@ class HttpProtocolHandler(BaseTcpServerHandler[HttpClientConnection]):
                 if len(ev) == 0:
                     continue
                 self.work.flush(self.flags.max_sendbuf_size)
-        except BrokenPipeError:
+        except OSError:
+            # Client is gone (broken pipe, reset): shutdown goes on
             pass
         finally:
             self.selector.unregister(self.work.connection)
